@@ -499,7 +499,11 @@ func (c *wsConn) handleResponse(frame frame) {
 		Error:   frame.Error,
 	}
 	c.inflightLk.Lock()
-	delete(c.inflight, frame.ID)
+	// only remove this request's own entry: after a connection loss a retried
+	// call may already have registered a new request under the same id
+	if cur, ok := c.inflight[frame.ID]; ok && cur.ready == req.ready {
+		delete(c.inflight, frame.ID)
+	}
 	c.inflightLk.Unlock()
 	vhook("fe.resp.delete", c, "id", frame.ID)
 }
